@@ -112,6 +112,16 @@ CLAIMS = {
         "unless reserved; lemma no_forgery (string theory) over explicit, reserved (scan of the _reserved=True sites) and automatic names.",
    note="Trusted: pyvc encoding, z3 string theory; event() contract (C11/C09); write-once _error (C09). Open known finding: automatic "
         "names of classes called 'ext'/'ext_*' begin with '_ext_'. Assumption A-C14: filters do not rewrite 'source'."),
+ 'C15': dict(
+   text="Circuit._validate_blk (resolution by cases: Const kept, known name -> block of that name, '_ctrl' / '_not_NAME' shortcuts create the "
+        "block once under that name with NAME as the inverter's input, plain values become Const, foreign blocks and unknown names are "
+        "errors), finalize (idempotent, sets the flag), check_not_finalized / addblock / set_persistent_data (frozen after finalisation or "
+        "shutdown, duplicate names, non-blocks), findblock, and _BlockResolver._check_type/register/resolve (every queued reference is "
+        "resolved by name and checked against the kind required by that very reference) are executed from the real AST; lemma one_inverter; "
+        "scans: writers of _finalized, oconnections/iconnections mutated only by _finalize, the resolver's registration sites.",
+   note="Trusted: pyvc encoding, z3. NOT under contract: Circuit._finalize (the biconditional between oconnections, iconnections and inputs), "
+        "CBlock.connect/check_signature/get_conf - these clauses are covered only by the bounded search (206 small circuits + error families), "
+        "labelled bounded."),
  'C16': dict(
    text="Event.send (filter loop with an inductive invariant over the pipeline fold), not_from_undef, Edge, Delta, IfOutput, "
         "IfNotIitialized, every DataEdit edit closure (add, setdefault, add_output, copy, rename, delete, permit, modify), the eight "
